@@ -577,3 +577,47 @@ func H_C01_send_after_odd_removals() {
 	verifAssert(b.IsAnyPipelineRegistered("t"), "C05.odd-removals.is-any")
 	verifReach("C01.odd-removals.end")
 }
+
+// a node need not be a pointer: any value with the three methods is a Node, whether or not its type has equality
+type valNode struct {
+	labels []string
+	c      *int
+	typ    NodeType
+	err    error
+}
+
+func (n valNode) Process(ctx context.Context, e *Event) (*Event, error) {
+	if n.typ == NodeTypeSink {
+		return nil, nil
+	}
+	return e, nil
+}
+func (n valNode) Reopen() error  { *n.c++; return n.err }
+func (n valNode) Type() NodeType { return n.typ }
+func (n valNode) Name() string   { return "val" }
+
+func H_C20_value_nodes() {
+	b, _ := NewBroker()
+	var cf, cs, cs2 int
+	f := valNode{labels: []string{"f"}, c: &cf, typ: NodeTypeFormatter}
+	s := valNode{labels: []string{"s"}, c: &cs, typ: NodeTypeSink}
+	s2 := valNode{c: &cs2, typ: NodeTypeSink}
+	fail := nondetBool()
+	if fail {
+		s2.err = &vErr{"s2-reopen"}
+	}
+	b.RegisterNode("f", f)
+	b.RegisterNode("s", s)
+	b.RegisterNode("s2", s2)
+	verifAssert(b.RegisterPipeline(Pipeline{PipelineID: "p", EventType: "t", NodeIDs: []NodeID{"f", "s"}}) == nil, "C05.value-nodes.registered")
+	two := nondetBool()
+	if two {
+		b.RegisterPipeline(Pipeline{PipelineID: "q", EventType: "t", NodeIDs: []NodeID{"f", "s2"}})
+	}
+	err := b.Reopen(context.Background())
+	verifAssert(cf >= 1 && cs >= 1 && (!two || cs2 >= 1), "C20.value-nodes.every-node-reopened")
+	verifAssert((err != nil) == (two && fail), "C20.value-nodes.error-iff-a-node-failed")
+	st, serr := b.Send(&vCtx{}, "t", "payload")
+	verifAssert(serr == nil && len(st.complete) >= 1, "C01.value-nodes.send-delivers")
+	verifReach("C20.value-nodes.end")
+}
